@@ -46,6 +46,14 @@ def ExcClass.kind : ExcClass → ExcKind
   | .abortSuite | .subAbortSuite => .abortSuite
   | .abortAll | .subAbortAll => .abortAll
 
+/-- class name as the harness writes it (`kind`, and `sub` = "an instance of a project-defined subclass of it") -/
+def ExcClass.ofName (k : String) (sub : Bool) : Option ExcClass :=
+  match k, sub with
+  | "exc", false => some .exc
+  | "AbortTest", false => some .abortTest | "AbortSuite", false => some .abortSuite | "AbortAllTests", false => some .abortAll
+  | "AbortTest", true => some .subAbortTest | "AbortSuite", true => some .subAbortSuite | "AbortAllTests", true => some .subAbortAll
+  | _, _ => none
+
 inductive Act
   | log (level : LogLevel) | check (ok : Bool) | step (d : String) | url | attach
   | raise (k : ExcKind) | gate | thread (script : List Act)
